@@ -317,8 +317,10 @@ def _run(prop, tier, test, seed, nshards, binary, outdir, t0):
         ],
         "wall_s": round(wall, 2), "violations": len(real),
     }
-    os.makedirs(os.path.join(ROOT, "evidence"), exist_ok=True)
-    with open(os.path.join(ROOT, "evidence", "%s.json" % prop), "w") as f:
+    # evidence describes /repo; a development run against another tree (VERIF_REPO) keeps its record in the scratch area
+    evdir = os.path.join(WORK, "evidence-alt") if os.environ.get("VERIF_REPO") else os.path.join(ROOT, "evidence")
+    os.makedirs(evdir, exist_ok=True)
+    with open(os.path.join(evdir, "%s.json" % prop), "w") as f:
         json.dump(evidence, f, indent=1)
         f.write("\n")
 
